@@ -3,6 +3,7 @@ CONSTANTS
   MaxStarts = 3
   MaxDrops = 2
   MaxForget = 2
+  MaxLinks = 0
   MaxDups = 2
   TieBreak = FALSE
   RoleByAddress = FALSE
